@@ -209,12 +209,29 @@ Ltac wstep H :=
   lazymatch type of H with
   | wbind ?m ?k ?w = Val (?r, ?w') =>
     let a := fresh "a" in let w1 := fresh "w" in let E := fresh "E" in let e := fresh "e" in
-    apply wbind_inv in H as [(a & w1 & E & H) | (e & E & ->)];
-    [ try ro_subst E | try ro_subst E ]
+    let Hr := fresh "Hr" in
+    apply wbind_inv in H as [(a & w1 & E & H) | (e & E & Hr)];
+    [ try ro_subst E
+    | first [ discriminate Hr
+            | first [ subst r | injection Hr as Hr; try subst | idtac ]; try ro_subst E ] ]
   end.
 
+(* the same with chosen names for the result value and the equation of the first computation *)
+Ltac wstep_as H a E :=
+  lazymatch type of H with
+  | wbind ?m ?k ?w = Val (?r, ?w') =>
+    let w1 := fresh "w" in let e := fresh "e" in
+    let Hr := fresh "Hr" in
+    apply wbind_inv in H as [(a & w1 & E & H) | (e & E & Hr)];
+    [ try ro_subst E
+    | first [ discriminate Hr
+            | first [ subst r | injection Hr as Hr; try subst | idtac ]; try ro_subst E ] ]
+  end.
+Tactic Notation "wstepn" hyp(H) ident(a) ident(E) := wstep_as H a E.
+
 (* basic inversions of leaf computations *)
-Ltac fin_eq E := first [ discriminate E | injection E as E; try subst | subst ].
+Ltac clear_triv := repeat match goal with H : ?x = ?x |- _ => clear H end.
+Ltac fin_eq E := first [ discriminate E | injection E as E; try subst | subst ]; clear_triv.
 Ltac winv E :=
   lazymatch type of E with
   | get_node _ _ = Val _ =>
